@@ -23,7 +23,7 @@ RULE = ('EVERY (length n, chunk size, overlap < chunk) with n <= N, chunk <= 16 
         '<= 6 x chunk <= 8 for _get_chunk_bounds (interval-tiling oracle + M2 contract), with real '
         'multi-file flat readers (header offsets 0/4/7/16 bytes) for all lists of <= 3 files (chunk_bounds, iter_chunks, data per '
         'interval vs ground truth); compressed readers over chunk lengths x decoder threads 1..4 x '
-        'cache on/off x 3 repetitions. non-trivial = distinct triples with n mod (chunk-overlap) != 0 '
+        'cache on/off x 3 repetitions (also with more decoder threads than CPUs); flat readers whose 600 s chunk is not a whole number of samples (7.4, 2.3, 12.49, x.5 ...: chunk length = rounded value) over recordings of many chunks, and whose parts share one base name in different folders. non-trivial = distinct triples with n mod (chunk-overlap) != 0 '
         'or n < chunk or odd overlap; excerpt triples with n < k*size or (n-size) mod (k-1) != 0; file '
         'lists containing a file shorter than the chunk; compressed layouts with >= 2 batches.')
 EXHAUSTIVE = {'quick': True, 'thorough': True}
@@ -64,7 +64,15 @@ def run_shard(desc, ctx):
             for cs in range(1, 9):
                 run_case({'kind': 'file_bounds', 'sizes': list(sizes), 'chunk': cs}, ctx)
             if nf <= 3:
-                run_case({'kind': 'flat_reader', 'sizes': list(sizes), 'chunks': list(range(1, 9))}, ctx)
+                run_case({'kind': 'flat_reader', 'sizes': list(sizes), 'chunks': list(range(1, 9)), 'same_name': idx % 3 == 0}, ctx)
+    # chunk durations that are not a whole number of samples (calibrated sampling rates): the chunk length is the
+    # rounded number of samples; recordings of many chunks, parts with equal base names in different folders
+    fr = [[50, 31, 7], [88], [23, 23], [7, 64, 1, 9], [150]]
+    for i_f, sizes in enumerate(fr):
+        idx += 1
+        if idx % ns == sh:
+            run_case({'kind': 'flat_reader', 'sizes': sizes, 'chunks': [7.4, 2.3, 5.2, 3.45, 12.49, 6.5, 7.5, 1.2],
+                      'same_name': i_f % 2 == 0}, ctx)
     # large random lengths, judged by interval arithmetic (no data array)
     rng = np.random.default_rng([desc['seed'], sh, 16])
     for _ in range(300 if desc['tier'] == 'quick' else 20000):
@@ -80,6 +88,11 @@ def run_shard(desc, ctx):
             if idx % ns != sh:
                 continue
             run_case({'kind': 'cbin_reader', 'n': n, 'chunk_len': cl, 'threads': [1, 2, 3, 4]}, ctx)
+    # more decoder threads than CPUs, more chunks than threads
+    for n, cl in ((40, 1), (75, 2)):
+        idx += 1
+        if idx % ns == sh:
+            run_case({'kind': 'cbin_reader', 'n': n, 'chunk_len': cl, 'threads': [(os.cpu_count() or 1) + 3, 2 * (os.cpu_count() or 1) + 1]}, ctx)
 
 
 # ------------------------------------------------------------------------------------------
@@ -265,12 +278,13 @@ def _case_flat_reader(case, ctx):
     d = scratch_dir('c16_')
     try:
         offset = [0, 16, 4, 7][sum(sizes) % 4]          # header bytes: 16 = four whole rows of 2 int16 channels
-        paths = L.write_flat(d, A, sizes, offset=offset, ext='.bin')
-        for cs in case['chunks']:
-            ctx.count(1, key=hkey('fr', tuple(sizes), cs), nontrivial=min(sizes) < cs and len(sizes) > 1,
+        paths = L.write_flat(d, A, sizes, offset=offset, ext='.bin', same_name=bool(case.get('same_name')))
+        for cs_f in case['chunks']:
+            cs = int(round(cs_f))        # the chunk length of a reader: the rounded number of samples in 600 s
+            ctx.count(1, key=hkey('fr', tuple(sizes), cs_f, bool(case.get('same_name'))), nontrivial=min(sizes) < cs and len(sizes) > 1,
                       cell=('flat_reader', 'nf%d' % len(sizes)))
-            r = call(get_ephys_reader, list(paths), sample_rate=cs / 600., dtype=np.int16, n_channels=2, offset=offset)
-            sub = dict(case, chunks=[cs])
+            r = call(get_ephys_reader, list(paths), sample_rate=cs_f / 600., dtype=np.int16, n_channels=2, offset=offset)
+            sub = dict(case, chunks=[cs_f])
             if not r.ok:
                 ctx.violation('raised', sub, 'get_ephys_reader raised %r' % r.exc, tb=r.tb)
                 continue
